@@ -1,13 +1,465 @@
-//! C07 — not implemented yet.
+//! C07 — fixed-window roller / delete roller on a scratch tree.
+//! case: kind(fw|del) pattern base count env(name:value,…) file init(path:bytes,…) rolls(bytes|-,…)
+//! observation: per roll `res|snapshot` joined by `/` (snapshot: `path:bytes,…` sorted, archives
+//! whose name ends in .gz/.zst decompressed), or `build-err`.
+use crate::proto::*;
 use crate::rng::Rng;
+use log4rs::append::rolling_file::policy::compound::roll::{
+    delete::DeleteRoller, fixed_window::FixedWindowRoller, Roll,
+};
+use std::io::{Read, Write};
+use std::path::{Path, PathBuf};
+use std::sync::atomic::{AtomicU64, Ordering};
 
-pub fn gen(_rng: &mut Rng, _n: usize, _thorough: bool, _emit: &mut dyn FnMut(String)) {}
+static COUNTER: AtomicU64 = AtomicU64::new(0);
 
-pub fn exec(_fields: &[&str]) -> String {
-    "unimplemented".to_owned()
+pub fn scratch_dir(tag: &str) -> PathBuf {
+    let base = std::env::var("VERIF_SCRATCH").unwrap_or_else(|_| "/tmp/verif-scratch".to_owned());
+    let n = COUNTER.fetch_add(1, Ordering::SeqCst);
+    let p = PathBuf::from(base).join(format!("{}-{}-{}", tag, std::process::id(), n));
+    let _ = std::fs::remove_dir_all(&p);
+    std::fs::create_dir_all(&p).unwrap();
+    p
 }
 
-/// child-process entry point (`verif-harness child c07 …`), for checks that need process-global state
-pub fn child(_args: &[String]) -> i32 {
-    2
+/// The roller prints `err compressing: …` on stdout when its last step fails; stdout is the
+/// observation channel, so fd 1 points to /dev/null while the real code runs.
+pub fn quiet_stdout<T>(f: impl FnOnce() -> T) -> T {
+    use std::os::unix::io::AsRawFd;
+    let _ = std::io::stdout().flush();
+    let devnull = std::fs::OpenOptions::new().write(true).open("/dev/null").unwrap();
+    let saved = unsafe { libc::dup(1) };
+    unsafe { libc::dup2(devnull.as_raw_fd(), 1) };
+    let r = f();
+    let _ = std::io::stdout().flush();
+    unsafe {
+        libc::dup2(saved, 1);
+        libc::close(saved);
+    }
+    r
+}
+
+pub fn compress_for(path: &str, data: &[u8]) -> Vec<u8> {
+    if path.ends_with(".gz") {
+        let mut e = flate2::write::GzEncoder::new(Vec::new(), flate2::Compression::default());
+        e.write_all(data).unwrap();
+        e.finish().unwrap()
+    } else if path.ends_with(".zst") {
+        zstd::encode_all(data, 3).unwrap()
+    } else {
+        data.to_vec()
+    }
+}
+
+pub fn decompress_for(path: &str, data: Vec<u8>) -> Vec<u8> {
+    if path.ends_with(".gz") {
+        let mut out = Vec::new();
+        match flate2::read::GzDecoder::new(&data[..]).read_to_end(&mut out) {
+            Ok(_) => out,
+            Err(_) => [b"!undecodable-gz:".to_vec(), data].concat(),
+        }
+    } else if path.ends_with(".zst") {
+        match zstd::decode_all(&data[..]) {
+            Ok(out) => out,
+            Err(_) => [b"!undecodable-zst:".to_vec(), data].concat(),
+        }
+    } else {
+        data
+    }
+}
+
+fn walk(root: &Path, dir: &Path, out: &mut Vec<(String, Vec<u8>)>) {
+    let rd = match std::fs::read_dir(dir) {
+        Ok(r) => r,
+        Err(_) => return,
+    };
+    for e in rd.flatten() {
+        let p = e.path();
+        let ft = match e.file_type() {
+            Ok(t) => t,
+            Err(_) => continue,
+        };
+        if ft.is_dir() {
+            walk(root, &p, out);
+        } else {
+            let rel = p.strip_prefix(root).unwrap().to_string_lossy().replace('\\', "/");
+            let data = std::fs::read(&p).unwrap_or_default();
+            let data = decompress_for(&rel, data);
+            out.push((rel, data));
+        }
+    }
+}
+
+/// recursive snapshot: relative path -> bytes, sorted by path
+pub fn snapshot(root: &Path) -> String {
+    let mut v = Vec::new();
+    walk(root, root, &mut v);
+    v.sort();
+    let xs: Vec<String> = v.iter().map(|(p, b)| format!("{}:{}", enc_str(p), enc_bytes(b))).collect();
+    enc_list(",", &xs)
+}
+
+pub fn write_file(root: &Path, rel: &str, data: &[u8]) -> std::io::Result<()> {
+    if rel.is_empty() || rel.ends_with('/') || rel.starts_with('/') {
+        return Err(std::io::Error::new(std::io::ErrorKind::InvalidInput, "not a relative file path"));
+    }
+    let p = root.join(rel);
+    if let Some(parent) = p.parent() {
+        std::fs::create_dir_all(parent)?;
+    }
+    std::fs::write(&p, data)
+}
+
+fn dec_pairs(s: &str) -> Option<Vec<(String, String)>> {
+    dec_list(',', s)
+        .iter()
+        .map(|e| {
+            let mut it = e.splitn(2, ':');
+            match (it.next(), it.next()) {
+                (Some(a), Some(b)) => Some((a.to_owned(), b.to_owned())),
+                _ => None,
+            }
+        })
+        .collect()
+}
+
+pub fn exec(fields: &[&str]) -> String {
+    if fields.len() != 8 {
+        return "bad-case".to_owned();
+    }
+    let kind = fields[0];
+    let (pattern, base, count, file) = match (
+        dec_str(fields[1]),
+        fields[2].parse::<u32>(),
+        fields[3].parse::<u32>(),
+        dec_str(fields[5]),
+    ) {
+        (Some(p), Ok(b), Ok(c), Some(f)) => (p, b, c, f),
+        _ => return "bad-case".to_owned(),
+    };
+    let env: Vec<(String, String)> = match dec_pairs(fields[4]) {
+        Some(v) => {
+            let mut out = vec![];
+            for (a, b) in v {
+                match (dec_str(&a), dec_str(&b)) {
+                    (Some(a), Some(b)) => out.push((a, b)),
+                    _ => return "bad-case".to_owned(),
+                }
+            }
+            out
+        }
+        None => return "bad-case".to_owned(),
+    };
+    let init: Vec<(String, Vec<u8>)> = match dec_pairs(fields[6]) {
+        Some(v) => {
+            let mut out = vec![];
+            for (a, b) in v {
+                match (dec_str(&a), dec_bytes(&b)) {
+                    (Some(a), Some(b)) => out.push((a, b)),
+                    _ => return "bad-case".to_owned(),
+                }
+            }
+            out
+        }
+        None => return "bad-case".to_owned(),
+    };
+    let mut rolls: Vec<Option<Vec<u8>>> = vec![];
+    for r in dec_list(',', fields[7]) {
+        if r == "-" {
+            rolls.push(None);
+        } else {
+            match dec_bytes(&r) {
+                Some(b) => rolls.push(Some(b)),
+                None => return "bad-case".to_owned(),
+            }
+        }
+    }
+    if kind != "fw" && kind != "del" {
+        return "bad-case".to_owned();
+    }
+
+    let root = scratch_dir("c07");
+    for (p, b) in &init {
+        if write_file(&root, p, &compress_for(p, b)).is_err() {
+            let _ = std::fs::remove_dir_all(&root);
+            return "bad-case".to_owned();
+        }
+    }
+    for (k, v) in &env {
+        std::env::set_var(k, v);
+    }
+    let real_pattern = format!("{}/{}", root.display(), pattern);
+    let roller: Result<Box<dyn Roll>, ()> = if kind == "del" {
+        Ok(Box::new(DeleteRoller::new()))
+    } else {
+        match guarded(std::panic::AssertUnwindSafe(|| {
+            FixedWindowRoller::builder().base(base).build(&real_pattern, count)
+        })) {
+            Ok(Ok(r)) => Ok(Box::new(r)),
+            _ => Err(()),
+        }
+    };
+    let obs = match roller {
+        Err(()) => "build-err".to_owned(),
+        Ok(roller) => {
+            let mut out = vec![];
+            let path = root.join(&file);
+            for r in &rolls {
+                if let Some(b) = r {
+                    if write_file(&root, &file, b).is_err() {
+                        out.push("harness-cannot-write".to_owned());
+                        continue;
+                    }
+                }
+                let res = quiet_stdout(|| guarded(std::panic::AssertUnwindSafe(|| roller.roll(&path))));
+                let kind = match res {
+                    Ok(Ok(())) => "ok",
+                    Ok(Err(_)) => "err",
+                    Err(_) => "PANIC",
+                };
+                out.push(format!("{}|{}", kind, snapshot(&root)));
+            }
+            enc_list("/", &out)
+        }
+    };
+    for (k, _) in &env {
+        std::env::remove_var(k);
+    }
+    let _ = std::fs::remove_dir_all(&root);
+    obs
+}
+
+// ------------------------------------------------------------------------------------------
+// generator
+// ------------------------------------------------------------------------------------------
+struct Shape {
+    pattern: &'static str,
+    file: &'static str,
+    env: &'static [(&'static str, &'static str)],
+}
+
+const SHAPES: &[Shape] = &[
+    Shape { pattern: "foo.log.{}", file: "foo.log", env: &[] },
+    Shape { pattern: "arch/foo.{}.log", file: "foo.log", env: &[] },
+    Shape { pattern: "arch{}/foo.log", file: "logs/app.log", env: &[] },
+    Shape { pattern: "a{}/foo.{}.log", file: "foo.log", env: &[] },
+    Shape { pattern: "x{}y{}", file: "x", env: &[] },
+    Shape { pattern: "$ENV{C07_DIR}/foo.{}.log", file: "foo.log", env: &[("C07_DIR", "envdir")] },
+    Shape { pattern: "logs/$ENV{C07_TAG}.{}.log", file: "logs/app.log", env: &[("C07_TAG", "app-7")] },
+    Shape { pattern: "$ENV{C07_DIR}/n{}/$ENV{C07_TAG}.{}", file: "cur.log", env: &[("C07_DIR", "e"), ("C07_TAG", "t")] },
+    Shape { pattern: "$ENV{C07_UNSET}.{}", file: "foo.log", env: &[] },
+    Shape { pattern: "foo.{}.log.gz", file: "foo.log", env: &[] },
+    Shape { pattern: "arch/foo.{}.zst", file: "foo.log", env: &[] },
+    Shape { pattern: "z{}/foo.log.{}.gz", file: "logs/app.log", env: &[] },
+];
+
+const SHAPES_THOROUGH: &[Shape] = &[
+    Shape { pattern: "ärch/föö.{}.log", file: "föö.log", env: &[] },
+    Shape { pattern: "{}", file: "foo.log", env: &[] },
+    Shape { pattern: "{}{}", file: "foo.log", env: &[] },
+    Shape { pattern: "d/{}/{}/f", file: "d/f", env: &[] },
+    Shape { pattern: "foo.log.{}.zst", file: "foo.log", env: &[] },
+    Shape { pattern: "$ENV{C07_DIR}/{}.gz", file: "$ENV{C07_DIR}/cur", env: &[("C07_DIR", "gzdir")] },
+    Shape { pattern: "a}{}{", file: "a", env: &[] },
+];
+
+fn name_of(sh: &Shape, i: u64) -> String {
+    let mut s = sh.pattern.replace("{}", &i.to_string());
+    for (k, v) in sh.env {
+        s = s.replace(&format!("$ENV{{{}}}", k), v);
+    }
+    s
+}
+
+fn content(rng: &mut Rng, k: usize, thorough: bool) -> Vec<u8> {
+    let mut v = format!("r{}:", k).into_bytes();
+    match rng.below(10) {
+        0 => {}
+        1 => v.clear(), // empty files (k-th empty content is not distinct — only once per case, see caller)
+        2 => {
+            for _ in 0..rng.range(1, 40) {
+                v.push(rng.below(256) as u8);
+            }
+        }
+        3 if thorough => {
+            for _ in 0..rng.range(1000, 5000) {
+                v.push(b'a' + rng.below(3) as u8);
+            }
+        }
+        _ => {
+            for _ in 0..rng.range(1, 12) {
+                v.push(b'a' + rng.below(26) as u8);
+            }
+            v.push(b'\n');
+        }
+    }
+    v
+}
+
+fn emit_case(
+    emit: &mut dyn FnMut(String),
+    kind: &str,
+    sh: &Shape,
+    base: u64,
+    count: u64,
+    init: &[(String, Vec<u8>)],
+    rolls: &[Option<Vec<u8>>],
+) {
+    let env: Vec<String> = sh.env.iter().map(|(k, v)| format!("{}:{}", enc_str(k), enc_str(v))).collect();
+    let init_s: Vec<String> = init.iter().map(|(p, b)| format!("{}:{}", enc_str(p), enc_bytes(b))).collect();
+    let rolls_s: Vec<String> = rolls
+        .iter()
+        .map(|r| match r {
+            Some(b) => enc_bytes(b),
+            None => "-".to_owned(),
+        })
+        .collect();
+    // the active file may itself be written with an $ENV reference in SHAPES_THOROUGH: the roller
+    // gets the expanded path (it never expands `file`), so expand here
+    let mut file = sh.file.to_owned();
+    for (k, v) in sh.env {
+        file = file.replace(&format!("$ENV{{{}}}", k), v);
+    }
+    emit(format!(
+        "{}\t{}\t{}\t{}\t{}\t{}\t{}\t{}",
+        kind,
+        enc_str(sh.pattern),
+        base,
+        count,
+        enc_list(",", &env),
+        enc_str(&file),
+        enc_list(",", &init_s),
+        enc_list(",", &rolls_s)
+    ));
+}
+
+fn distinct_rolls(rng: &mut Rng, n: usize, thorough: bool, missing_tail: bool) -> Vec<Option<Vec<u8>>> {
+    let mut seen_empty = false;
+    let mut out: Vec<Option<Vec<u8>>> = vec![];
+    for k in 0..n {
+        let mut c = content(rng, k, thorough);
+        if c.is_empty() {
+            if seen_empty {
+                c = format!("r{}:e", k).into_bytes();
+            }
+            seen_empty = true;
+        }
+        out.push(Some(c));
+    }
+    if missing_tail {
+        out.push(None);
+    }
+    out
+}
+
+pub fn gen(rng: &mut Rng, n: usize, thorough: bool, emit: &mut dyn FnMut(String)) {
+    let bases: &[u64] = &[0, 1, 3, 9, 10];
+    // deterministic block: every (base, count) with count+2 rolls from an empty tree, plain pattern
+    for &b in bases {
+        for c in 0..=5u64 {
+            let rolls: Vec<Option<Vec<u8>>> = (0..c + 2).map(|k| Some(format!("file{}\n", k).into_bytes())).collect();
+            emit_case(emit, "fw", &SHAPES[0], b, c, &[], &rolls);
+        }
+    }
+    emit_case(emit, "del", &SHAPES[0], 0, 0, &[("foo.log.0".to_owned(), b"keep".to_vec())], &[Some(b"x".to_vec()), Some(b"y".to_vec()), None]);
+    // builder rejects a pattern without {}
+    emit_case(emit, "fw", &Shape { pattern: "foo.log", file: "foo.log", env: &[] }, 0, 2, &[], &[Some(b"x".to_vec())]);
+    emit_case(emit, "fw", &Shape { pattern: "foo.{ }.log", file: "foo.log", env: &[] }, 0, 2, &[], &[Some(b"x".to_vec())]);
+    // the u32 edge of `base + count - 1` (F11): the first three overflow, the last two do not
+    for (b, c) in [(4294967295u64, 2u64), (4294967295, 1), (4294967294, 2), (4294967294, 1), (4294967290, 5), (4294967295, 0)] {
+        let rolls: Vec<Option<Vec<u8>>> = (0..3).map(|k| Some(format!("edge{}\n", k).into_bytes())).collect();
+        emit_case(emit, "fw", &SHAPES[0], b, c, &[], &rolls);
+    }
+
+    let mut shapes: Vec<&Shape> = SHAPES.iter().collect();
+    if thorough {
+        shapes.extend(SHAPES_THOROUGH.iter());
+    }
+    for _ in 0..n {
+        let sh: &Shape = *rng.pick(&shapes);
+        let kind = if rng.chance(1, 12) { "del" } else { "fw" };
+        let b = *rng.pick(bases);
+        let c = rng.range(0, 5);
+        let max_rolls = if thorough || rng.chance(1, 4) { 12 } else { 7 };
+        let n_rolls = rng.range(0, max_rolls) as usize;
+        let missing_tail = rng.chance(1, 10);
+        let rolls = distinct_rolls(rng, n_rolls, thorough, missing_tail);
+        // initial tree
+        let mut init: Vec<(String, Vec<u8>)> = vec![];
+        let add = |init: &mut Vec<(String, Vec<u8>)>, p: String, v: Vec<u8>| {
+            if !init.iter().any(|(q, _)| *q == p) && !p.is_empty() && !p.ends_with('/') {
+                init.push((p, v));
+            }
+        };
+        let mode = rng.below(4);
+        if mode >= 1 {
+            // pre-existing archives inside the window: dense prefix, random subset (gaps), or all
+            for j in 0..c {
+                let keep = match mode {
+                    1 => j < rng.range(0, c),
+                    2 => rng.chance(1, 2),
+                    _ => true,
+                };
+                if keep {
+                    add(&mut init, name_of(sh, b + j), format!("old{}", j).into_bytes());
+                }
+            }
+        }
+        if rng.chance(1, 2) {
+            // archives just outside the window, textual neighbours of window names
+            for i in [b + c, b + c + 1, b.wrapping_sub(1), 10, 11, 100, 20] {
+                if i < (1 << 32) && !(i >= b && i < b + c) && rng.chance(1, 2) {
+                    add(&mut init, name_of(sh, i), format!("outside{}", i).into_bytes());
+                }
+            }
+            if c > 0 && rng.chance(1, 2) {
+                let nm = name_of(sh, b);
+                if !nm.ends_with(".gz") && !nm.ends_with(".zst") {
+                    add(&mut init, format!("{}0x", nm), b"neighbour-suffix".to_vec());
+                    add(&mut init, format!("{}.bak", nm), b"neighbour-bak".to_vec());
+                }
+            }
+        }
+        if rng.chance(1, 2) {
+            // siblings of the active file and unrelated files
+            let f = sh.file;
+            for (p, v) in [
+                (format!("{}.bak", f), "sibling-bak"),
+                (format!("{}x", f), "sibling-x"),
+                (f[..f.len() - 1].to_owned(), "sibling-short"),
+                ("other/readme.txt".to_owned(), "unrelated"),
+                ("zz".to_owned(), ""),
+            ] {
+                if rng.chance(1, 2) && !p.contains("$ENV") {
+                    add(&mut init, p, v.as_bytes().to_vec());
+                }
+            }
+        }
+        // never let an initial entry collide with the active file, a window name, or be a directory
+        // prefix of another entry
+        let file_expanded = {
+            let mut f = sh.file.to_owned();
+            for (k, v) in sh.env {
+                f = f.replace(&format!("$ENV{{{}}}", k), v);
+            }
+            f
+        };
+        let window: Vec<String> = (0..c).map(|j| name_of(sh, b + j)).collect();
+        let mut all: Vec<String> = init.iter().map(|(p, _)| p.clone()).collect();
+        all.push(file_expanded.clone());
+        all.extend(window.iter().cloned());
+        all.push(name_of(sh, b + c));
+        let clash = |p: &String, all: &Vec<String>| {
+            all.iter().any(|q| q != p && (q.starts_with(&format!("{}/", p)) || p.starts_with(&format!("{}/", q))))
+        };
+        let init: Vec<(String, Vec<u8>)> = init
+            .iter()
+            .filter(|(p, _)| *p != file_expanded && !clash(p, &all))
+            .cloned()
+            .collect();
+        if clash(&file_expanded, &all) || window.iter().any(|w| *w == file_expanded || clash(w, &all)) {
+            continue;
+        }
+        emit_case(emit, kind, sh, b, c, &init, &rolls);
+    }
 }
